@@ -98,10 +98,15 @@ structure Fixes where
   explicitPortWins : Bool
   /-- commit 184466f (fixes/C17-reject-dash-host.patch): `_setup_host` refuses a host starting with `-` -/
   rejectDashHost : Bool
+  /-- PROPOSED, not in /repo: fixes/C17-reject-destination-syntax.patch: `_setup_host` refuses a host containing `@`
+      or starting with `ssh://` (ssh would take a user / port out of it, finding F16c) -/
+  rejectDestSyntax : Bool
   deriving DecidableEq, Repr
 
-def Fixes.none : Fixes := ⟨false, false, false, false⟩
-def Fixes.all : Fixes := ⟨true, true, true, true⟩
+def Fixes.none : Fixes := ⟨false, false, false, false, false⟩
+/-- /repo HEAD: the three fix commits, without the proposed destination-syntax patch -/
+def Fixes.head : Fixes := ⟨true, true, true, true, false⟩
+def Fixes.all : Fixes := ⟨true, true, true, true, true⟩
 
 /-! ### Python string helpers -/
 
@@ -208,8 +213,18 @@ def Plugin.bool (p : Plugin) (f : Field) : Bool :=
 inductive Err where
   | noHost            -- ScrapliValueError "`host` should be a hostname/ip address, got nothing!"
   | dashHost          -- ScrapliValueError (only with fix rejectDashHost)
+  | destSyntaxHost    -- ScrapliValueError (only with the proposed fix rejectDestSyntax)
   | keyUnresolvable   -- ScrapliValueError "File path … could not be resolved"
   deriving DecidableEq, Repr
+
+/-- no `@` in the word -/
+def noAt (h : Str) : Bool := h.all (· != '@')
+
+/-- the word starts with `ssh://` (ssh.c `parse_ssh_uri`, case sensitive) -/
+def isSshUri (h : Str) : Bool := ['s', 's', 'h', ':', '/', '/'].isPrefixOf h
+
+/-- ssh takes the whole destination word as the host name: no `user@`, no `ssh://` URI -/
+def destPlain (h : Str) : Bool := noAt h && !isSshUri h
 
 /-- `_setup_host` (base_driver.py:274-296); the `isinstance(port, int)` test is outside the model (ports are
     ints) and the port is returned unchanged -/
@@ -218,6 +233,7 @@ def setupHost (fx : Fixes) (host : Str) : Except Err Str :=
   else
     let h := strip host                                       -- :296 `host.strip()`
     if fx.rejectDashHost && h.head? == some '-' then .error .dashHost   -- fix: refuse a leading `-`
+    else if fx.rejectDestSyntax && !destPlain h then .error .destSyntaxHost   -- proposed: refuse `@` / `ssh://`
     else .ok h
 
 /-- `resolve_file` (helper.py:237-255) -/
@@ -476,20 +492,68 @@ def cfgOfF (v : SshConfigView) : Option Str → HostCfg
   | none => v.sshDefault
   | some f => if f == devNull then {} else v.lookup f
 
-/-- What ssh connects with, for a parsed command line: `-p` / `-l` (first occurrence wins,
-    ssh.c `if (options.port == -1)`, `if (options.user == NULL)`), `-i`, else the configuration file
-    (`-F`, last wins), else the default port. -/
+/-- `strrchr(p, '@')`: the word split at its LAST `@` -/
+def splitLastAt : Str → Option (Str × Str)
+  | [] => none
+  | c :: cs =>
+    match splitLastAt cs with
+    | some (u, h) => some (c :: u, h)
+    | none => if c == '@' then some ([], cs) else none
+
+/-- the word split at its FIRST occurrence of `x` -/
+def splitFirst (x : Char) : Str → Option (Str × Str)
+  | [] => none
+  | c :: cs =>
+    if c == x then some ([], cs)
+    else match splitFirst x cs with
+      | some (u, h) => some (c :: u, h)
+      | none => none
+
+/-- what ssh takes out of the destination word -/
+structure Dest where
+  user : Option Str
+  host : Str
+  port : Option Str
+  deriving DecidableEq, Repr
+
+/-- ssh.c `main`: `ssh://[user@]host[:port][/path]` (misc.c `parse_uri`: path cut at the first `/`, user = text
+    before the FIRST `@`, port after the `:` — simplified: no `[v6]` brackets, no percent decoding, no `;params`),
+    else `[user@]host` split at the LAST `@`, else the word is the host.  Exact on `destPlain` words (the
+    theorems' domain) and on the plain `user@host` form. -/
+def parseDest (d : Str) : Dest :=
+  if isSshUri d then
+    let auth := (d.drop 6).takeWhile (· != '/')
+    let (user, hp) := match splitFirst '@' auth with
+      | some (u, rest) => (some u, rest)
+      | none => (none, auth)
+    match splitFirst ':' hp with
+    | some (h, q) => { user := user, host := h, port := some q }
+    | none => { user := user, host := hp, port := none }
+  else
+    match splitLastAt d with
+    | some (u, h) => { user := some u, host := h, port := none }
+    | none => { user := none, host := d, port := none }
+
+/-- What ssh connects with, for a parsed command line.  User and port are "first obtained wins" (ssh.c
+    `if (options.user == NULL)`, `if (options.port == -1)`): scrapli puts the destination BEFORE `-p` / `-l`,
+    so a user / port inside the destination word beats them; then `-p` / `-l` (first occurrence), `-i`, else
+    the configuration file (`-F`, last wins), else the default port. -/
 def sshEffective (p : SshParse) (v : SshConfigView) : Eff :=
   let hc : HostCfg := cfgOfF v (lastOpt 'F' p.opts)
-  { host := p.dest,
-    port := match firstOpt 'p' p.opts with
-      | some s => s
-      | none => match hc.portTruthy with
-        | some q => natStr q
-        | none => natStr defaultPortSsh,
-    user := match firstOpt 'l' p.opts with
+  let d := parseDest p.dest
+  { host := d.host,
+    port := match d.port with
+      | some q => q
+      | none => match firstOpt 'p' p.opts with
+        | some s => s
+        | none => match hc.portTruthy with
+          | some q => natStr q
+          | none => natStr defaultPortSsh,
+    user := match d.user with
       | some u => u
-      | none => hc.user,
+      | none => match firstOpt 'l' p.opts with
+        | some u => u
+        | none => hc.user,
     key := match firstOpt 'i' p.opts with
       | some k => k
       | none => hc.identityFile }
